@@ -18,16 +18,29 @@ import (
 // C09: emitted frames conform to the frame specification (modern and legacy).
 
 type c09Case struct {
-	Opts  wopts    `json:"opts"`
-	Data  gen.Data `json:"data"`
-	Entry string   `json:"entry"` // write | readfrom | creader
-	Del   delivery `json:"delivery"`
-	Zero  string   `json:"zero"` // "" | block | content : patch the data so that the XXH32 of the first block / of the content is 0
-	RSize []int    `json:"rsize,omitempty"`
+	Opts  wopts     `json:"opts"`
+	Data  gen.Data  `json:"data"`
+	Entry string    `json:"entry"` // write | readfrom | creader
+	Del   delivery  `json:"delivery"`
+	Zero  string    `json:"zero"` // "" | block | content : patch the data so that the XXH32 of the first block / of the content is 0
+	RSize []int     `json:"rsize,omitempty"`
+	Prev  []c09Prev `json:"prev,omitempty"` // frames written earlier with the same Writer (Close, Reset in between)
+}
+
+// c09Prev: an earlier frame of the same Writer, with its own options.
+type c09Prev struct {
+	Opts   wopts `json:"opts"`
+	N      int   `json:"n"`
+	Legacy *bool `json:"legacy,omitempty"` // when set, the earlier frame only toggles legacy mode and keeps every other option as it is
 }
 
 // emit produces the frame for a case through the chosen entry point.
 func emit(o wopts, data []byte, entry string, d delivery, rsizes []int) ([]byte, *stat.Failure) {
+	return emitAfter(nil, o, data, entry, d, rsizes)
+}
+
+// emitAfter is emit on a Writer that has already written the prev frames (each closed, then Reset).
+func emitAfter(prev []c09Prev, o wopts, data []byte, entry string, d delivery, rsizes []int) ([]byte, *stat.Failure) {
 	switch entry {
 	case "creader":
 		cr := lz4.NewCompressingReader(&inst.ReadCloser{Reader: bytes.NewReader(data)})
@@ -65,7 +78,43 @@ func emit(o wopts, data []byte, entry string, d delivery, rsizes []int) ([]byte,
 	default:
 		var sink inst.Sink
 		w := lz4.NewWriter(&sink)
-		if err := w.Apply(o.options(len(data), nil)...); err != nil {
+		if len(prev) > 0 && prev[len(prev)-1].Legacy != nil {
+			// configure the block size once, up front; the earlier frames then only toggle legacy mode
+			if err := w.Apply(lz4.BlockSizeOption(blockSizes[o.BS])); err != nil {
+				return nil, stat.Failf("C09/apply-rejects-valid-options", "Apply(block size): %v", err)
+			}
+		}
+		for i, p := range prev {
+			var psink inst.Sink
+			w.Reset(&psink)
+			pd := opData(p.N, uint64(i)+7)
+			popts := p.Opts.options(len(pd), nil)
+			if p.Legacy != nil {
+				popts = []lz4.Option{lz4.LegacyOption(*p.Legacy)}
+			}
+			if err := w.Apply(popts...); err != nil {
+				return nil, stat.Failf("C09/apply-rejects-valid-options", "earlier frame %d: Apply(%s): %v", i, p.Opts, err)
+			}
+			if _, err := w.Write(pd); err != nil {
+				return nil, stat.Failf("C09/writer-call-fails/"+errClass(err), "earlier frame %d: %v", i, err)
+			}
+			if err := w.Close(); err != nil {
+				return nil, stat.Failf("C09/close-fails/"+errClass(err), "earlier frame %d: %v", i, err)
+			}
+			w.Reset(&sink)
+		}
+		if !o.Size {
+			// options persist: an earlier frame's SizeOption must be cleared explicitly
+			if err := w.Apply(lz4.SizeOption(0)); err != nil {
+				return nil, stat.Failf("C09/apply-rejects-valid-options", "Apply(SizeOption(0)): %v", err)
+			}
+		}
+		jopts := o.options(len(data), nil)
+		if len(prev) > 0 && prev[len(prev)-1].Legacy != nil {
+			// the block size configured at the very start must still be in force: do not repeat that option
+			jopts = jopts[1:]
+		}
+		if err := w.Apply(jopts...); err != nil {
 			return nil, stat.Failf("C09/apply-rejects-valid-options", "Apply(%s): %v", o, err)
 		}
 		if where, err := deliver(w, data, d); err != nil {
@@ -184,6 +233,19 @@ func drawC09(t *rapid.T) c09Case {
 	default:
 		c.Data = drawFrameData(t, n)
 	}
+	if c.Entry != "creader" && rapid.IntRange(0, 2).Draw(t, "prev?") == 0 {
+		for i := rapid.IntRange(1, 3).Draw(t, "nprev"); i > 0; i-- {
+			po := drawWopts(t, false, 5)
+			po.Conc = c.Opts.Conc
+			c.Prev = append(c.Prev, c09Prev{Opts: po, N: rapid.SampledFrom([]int{0, 10, 70000}).Draw(t, "prevn")})
+		}
+		if rapid.Bool().Draw(t, "legacytoggles") {
+			// earlier frames that only toggle legacy mode: the block size configured up front must survive them
+			for i := range c.Prev {
+				c.Prev[i].Legacy = bp(rapid.IntRange(0, 2).Draw(t, "prevlegacy") != 0)
+			}
+		}
+	}
 	c.Del = drawDelivery(t, n, bs, false, false)
 	if c.Entry == "readfrom" {
 		c.Del = delivery{Mode: "readfrom", Src: drawChunkSchedule(t, bs, "src"), EOFWith: rapid.Bool().Draw(t, "eofwith")}
@@ -230,9 +292,12 @@ func runC09(c c09Case, rec *stat.Rec) *stat.Failure {
 		zeroed = zeroPatch(data, c.Zero, bs)
 	}
 	rec.Eval()
-	z, f := emit(c.Opts, data, c.Entry, c.Del, c.RSize)
+	z, f := emitAfter(c.Prev, c.Opts, data, c.Entry, c.Del, c.RSize)
 	if f != nil {
 		return f
+	}
+	if len(c.Prev) > 0 && c.Entry != "creader" {
+		rec.Class(fmt.Sprintf("writer/reused-after-%d-frames", len(c.Prev)))
 	}
 	if f := checkStrictFrame("C09", z, data, c.Opts, false); f != nil {
 		return f
@@ -317,6 +382,6 @@ func TestC09Pinned(t *testing.T) {
 func TestC09(t *testing.T) {
 	rec := stat.For("C09")
 	rec.SetRule(c09Rule)
-	rec.Require("nontrivial", "frame/zero-hash-block+blocksum", "frame/zero-hash-content+contentsum", "frame/raw+compressed-blocks", "frame/legacy-nonempty", "entry/creader", "entry/readfrom", "input/empty", "input/k*bs")
-	checkProp(t, "C09", "C09/conformance", pick(3000, 80000), drawC09, runC09)
+	rec.Require("nontrivial", "writer/reused-after-2-frames", "frame/zero-hash-block+blocksum", "frame/zero-hash-content+contentsum", "frame/raw+compressed-blocks", "frame/legacy-nonempty", "entry/creader", "entry/readfrom", "input/empty", "input/k*bs")
+	checkProp(t, "C09", "C09/conformance", pick(12000, 150000), drawC09, runC09)
 }
